@@ -11,6 +11,8 @@ Definition q_tpredict_abs := @tpredict_abs Qc qc_ops.
 Definition q_tgrad := @tgrad Qc qc_ops.
 Definition q_misc_predict := @misc_predict Qc qc_ops.
 Definition q_misc_grad := @misc_grad Qc qc_ops.
+Definition q_thess := @thess Qc qc_ops.
+Definition q_misc_hess := @misc_hess Qc qc_ops.
 Definition q_mk_grid := @mk_grid Qc qc_ops.
 Definition q_trace_ok := @trace_ok Qc qc_ops.
 
